@@ -101,7 +101,7 @@ def record(run):
     dtn = run.get("dtype", "float64")
     scale = run.get("scale")
     if dtn.startswith("uint"):
-        # unsigned storage (callable metrics only: libdist has no unsigned kernels): the largest power of two that
+        # unsigned storage (the callable metric; the named ones only to see that the refusal stays a refusal): the largest power of two that
         # keeps every coordinate inside the type, so that the top coordinates lie above the sign bit of the same width
         top = max([int(abs(v)) for p_ in pts for v in p_] + [1])
         scale = 1.0
@@ -352,7 +352,12 @@ def record(run):
         except ProjectionError as ex:
             events.append({"ev": "raise", "msg": "projection: %s" % ex})
         except Exception as ex:
-            events.append({"ev": "raise", "msg": "%s: %s" % (type(ex).__name__, str(ex)[:200])})
+            if dtn.startswith("uint") and metric != "linf" and isinstance(ex, TypeError) and "No matching signature" in str(ex):
+                # the compiled kernels have no unsigned variants: refusing the element type is an answer (see C13);
+                # whatever is RETURNED for such data is judged like any other result
+                tr["rejected_input"] = True
+            else:
+                events.append({"ev": "raise", "msg": "%s: %s" % (type(ex).__name__, str(ex)[:200])})
     finally:
         signal.alarm(0)
         signal.signal(signal.SIGALRM, old_handler)
